@@ -184,9 +184,7 @@ pub fn run(rep: &Reporter) -> Coverage {
     let mut runs = Vec::new();
     let budget = rep.tier.pick(45.0, 1500.0);
     let mut exhaustive = true;
-    for mut plan in plans(rep.tier) {
-        // a CSV round trip writes and reads 4-5 files per state: one level less than the other hist checks
-        plan.depth -= 1;
+    for plan in plans(rep.tier) {
         let stats = explore(rep, &oracle, &plan.init, &plan.al, plan.depth, budget);
         cov.states += stats.states;
         cov.transitions += stats.transitions;
